@@ -139,7 +139,7 @@ Genuine(v) == {Pert("genuine_te", "te", NoMods, NoMods)} \cup {Pert("genuine_" \
 TTLRanges == {<<1, 4>>, <<2, 5>>, <<252, 255>>}
 
 \* TLC cannot quantify a dependent product in one comprehension: build it as a union
-C01All ==
+C01All(u) ==
     UNION { UNION { UNION {
         { C01Scen(v, s, b, pt, "after", <<1, 4>>) : pt \in QuotePerts(v) \cup DirectPerts(v) } \cup
         \* (b) a genuine reply for a TTL that has not been probed yet / delivered before its probe
@@ -157,13 +157,125 @@ C01All ==
                                    path |-> Background(v, 1, 4, 4, {2})] : v \in Variants, b \in Bases }
 
 ---------------------------------------------------------------------------
-Cases == CASE Gen = "C01" -> C01All
+(***************************************************************************)
+(* C02: the device-behaviour catalogue.  Every router on a 4-hop path      *)
+(* answers in ONE encoding combination; the destination answers in one of  *)
+(* its proof-of-arrival forms; timing early or just inside the window.     *)
+(***************************************************************************)
+Encs == { [quote |-> q, ipopt |-> o, qttl |-> t, qcsum |-> c, qtos |-> s] :
+            q \in {"28", "full", "ext"}, o \in {0, 4, 40}, t \in {0, 7, -1}, c \in {"", "zero", "keep"}, s \in {0, 40} }
+EncPlain == [quote |-> "28", ipopt |-> 0, qttl |-> 0, qcsum |-> "", qtos |-> 0]
+
+NatMods == [q_src |-> "172.16.5.5"]
+\* listening window: a reply to probe t (sent at (t-mn)*delay for the parallel engine) arriving one poll + 1 ms before the end
+LateDelay(v, mn, mx, t) ==
+    IF IsSerialV(v) THEN 400000 - 100000 - 1000
+    ELSE 400000 + 20000 * (mx - mn + 1) - 100000 - 1000 - 20000 * (t - mn)
+
+C02Scen(v, strict, b, enc, dform, timing, nat, other, sackx) ==
+    LET mn == 1  mx == 5  dt == 4
+        rdelay(t) == IF timing = "late" THEN LateDelay(v, mn, mx, t) ELSE 2000 + 900 * t
+        te(t) == [form |-> "te", from |-> Router(v, t), delay_us |-> rdelay(t), tag |-> "g"] @@ enc
+                 @@ (IF nat THEN [mods_s |-> NatMods, mods |-> [q_sport |-> 1024]] ELSE [mods_s |-> NoMods])
+        dst(t) == [form |-> dform, delay_us |-> rdelay(t), tag |-> "g"] @@ (IF dform = "sack" THEN [extra |-> sackx[1], desc |-> sackx[2]] ELSE [quote |-> "28"])
+                 @@ (IF dform \in {"du_port", "du_host", "du_admin"} THEN enc ELSE [qttl |-> 0])
+        \* behaviour of the OTHER replies: all present / one lost / one duplicated / reordered (lower TTLs slower)
+        hop(t) == CASE other = "loss" /\ t = 2 -> <<>>
+                    [] other = "dup" /\ t = 2 -> <<te(t) @@ [dup |-> 1, dup_us |-> 150000]>>
+                    [] other = "reorder" /\ timing = "early" -> <<[te(t) EXCEPT !.delay_us = 90000 - 20000 * t]>>
+                    [] OTHER -> <<te(t)>>
+    IN Common(v, strict, b, mn, mx) @@
+       [id |-> "C02/" \o v \o "/" \o (IF strict THEN "strict" ELSE "relaxed") \o "/" \o b.name \o "/" \o enc.quote \o "-" \o ToString(enc.ipopt)
+               \o "-" \o ToString(enc.qttl) \o "-" \o enc.qcsum \o "-" \o ToString(enc.qtos) \o "/" \o dform \o "/" \o timing
+               \o (IF nat THEN "/nat" ELSE "") \o "/" \o other \o "/" \o ToString(Len(sackx[1])) \o (IF sackx[2] THEN "d" ELSE "a"),
+        label |-> v \o "/" \o (IF strict THEN "strict" ELSE "relaxed") \o "/" \o enc.quote \o "/opt" \o ToString(enc.ipopt) \o "/" \o dform \o "/" \o timing
+                  \o (IF nat THEN "/nat" ELSE "") \o "/" \o other,
+        path |-> PathOf([t \in mn..mx |-> IF t >= dt THEN <<dst(t)>> ELSE hop(t)])]
+
+SackExtras == <<<<<<>>, FALSE>>, <<<<5>>, FALSE>>, <<<<5>>, TRUE>>>>
+DestFormSeq(v) == SetToSeq(DestForms(v))
+\* the parameter space of the catalogue; dependent choices are made by index so that the space is a plain product
+C02Params == [v : Variants, s : BOOLEAN, b : Bases, enc : Encs, dfi : 1..3, tm : {"early", "late"},
+              ot : {"all", "loss", "dup", "reorder"}, sxi : 1..3, nat : BOOLEAN]
+C02Of(p) ==
+    LET v == p.v
+        s == IF HasStrict(v) THEN p.s ELSE TRUE
+        dfs == DestFormSeq(v)
+        df == dfs[((p.dfi - 1) % Len(dfs)) + 1]
+        nat == p.nat /\ ~s /\ HasStrict(v)
+        sx == IF v = "sack" THEN SackExtras[p.sxi] ELSE SackExtras[1]
+    IN C02Scen(v, s, p.b, p.enc, df, IF nat THEN "early" ELSE p.tm, nat, IF nat THEN "all" ELSE p.ot, sx)
+\* a fixed core (plain encoding, every variant/form/timing/strictness) plus a seeded sample of the full catalogue product
+C02Core == { [v |-> v, s |-> s, b |-> BaseMid, enc |-> EncPlain, dfi |-> i, tm |-> tm, ot |-> "all", sxi |-> x, nat |-> n] :
+               v \in Variants, s \in BOOLEAN, i \in 1..3, tm \in {"early", "late"}, x \in 1..3, n \in BOOLEAN }
+C02All(u) == { C02Of(p) : p \in C02Core \cup RandomSubset(u, C02Params) }
+
+---------------------------------------------------------------------------
+(***************************************************************************)
+(* C04: responder x form matrix at TTL 3 of a 5-hop path whose real        *)
+(* destination answers at TTL 5.                                           *)
+(***************************************************************************)
+C04Forms(v) == {"te", "te_reass"} \cup DestForms(v) \cup (IF v \in {"udp4", "udp6"} THEN {} ELSE {"du_port"})
+Responders(v) == {"TARGET", Router(v, 3), Foreign(v, 9)}
+C04Scen(v, strict, form, resp, late) ==
+    Common(v, strict, BaseMid, 1, 5) @@
+    [id |-> "C04/" \o v \o "/" \o (IF strict THEN "strict" ELSE "relaxed") \o "/" \o form \o "/" \o resp \o (IF late THEN "/with_dest" ELSE "/no_dest"),
+     label |-> v \o "/" \o form \o "/from_" \o (IF resp = "TARGET" THEN "target" ELSE IF resp = Router(v, 3) THEN "router" ELSE "foreign"),
+     path |-> PathOf([t \in 1..5 |->
+                IF t = 3 THEN <<[form |-> form, from |-> resp, delay_us |-> 4000, tag |-> "x"]>>
+                ELSE IF t = 5 /\ late THEN <<Dest(v, 9000)>>
+                ELSE IF t = 5 THEN <<>>
+                ELSE <<TE(v, t, 3000 + 500 * t)>>])]
+C04All(u) == UNION { { C04Scen(v, s, f, r, l) : s \in StrictOpts(v), f \in C04Forms(v), r \in Responders(v), l \in BOOLEAN } : v \in Variants }
+
+---------------------------------------------------------------------------
+(***************************************************************************)
+(* C05: per-hop delay assignments at production scale (timeout 3 s, poll   *)
+(* 100 ms, send delay 250 ms >= 2 polls): non-monotone delays, duplicates  *)
+(* with a larger delay, replies overtaking each other.                     *)
+(***************************************************************************)
+DelaySet == {7300, 133700, 481100}
+C05Scen(v, strict, ds, dupAt, destDelay) ==
+    [variant |-> v, strict |-> strict, min |-> 1, max |-> 4, timeout_ms |-> 3000, delay_ms |-> 250,
+     ipid_base |-> 41821, echo_base |-> 40000, seq_base32 |-> <<4660, 22136>>, isn32 |-> <<4660, 22136>>, sack_perm |-> TRUE, sack_ts |-> TRUE,
+     id |-> "C05/" \o v \o "/" \o ToString(ds[1]) \o "-" \o ToString(ds[2]) \o "-" \o ToString(ds[3]) \o "/dup" \o ToString(dupAt) \o "/" \o ToString(destDelay),
+     label |-> v \o "/delays/dup" \o ToString(dupAt),
+     path |-> PathOf([t \in 1..4 |->
+                IF t = 4 THEN <<[form |-> DestForm1(v), delay_us |-> destDelay, dup |-> IF dupAt = 4 THEN 1 ELSE 0, dup_us |-> 377000]>>
+                ELSE <<[form |-> "te", from |-> Router(v, t), delay_us |-> ds[t], dup |-> IF dupAt = t THEN 1 ELSE 0, dup_us |-> 377000]>>])]
+C05All(u) == { C05Scen(v, TRUE, ds, du, dd) : v \in Variants, ds \in [1..3 -> DelaySet], du \in 0..4, dd \in {9100, 601300} }
+
+---------------------------------------------------------------------------
+(***************************************************************************)
+(* C06: emission.  Full 255-TTL runs for every variant and identifier      *)
+(* base, and destination replies at every position relative to pacing.     *)
+(***************************************************************************)
+C06Full(v, b, mn, mx) ==
+    [variant |-> v, strict |-> TRUE, min |-> mn, max |-> mx, timeout_ms |-> 200, delay_ms |-> 2,
+     ipid_base |-> b.ipid_base, echo_base |-> b.echo_base, seq_base32 |-> b.seq_base, isn32 |-> b.isn, sack_perm |-> TRUE, sack_ts |-> (b.name = "wrap"),
+     id |-> "C06/full/" \o v \o "/" \o b.name \o "/" \o ToString(mn) \o "-" \o ToString(mx), label |-> v \o "/full/" \o ToString(mn) \o "-" \o ToString(mx),
+     path |-> PathOf([t \in {mn, mx} |-> IF t = mn THEN <<TE(v, t, 1000)>> ELSE <<>>])]
+C06Dest(v, b, dt, dd) ==
+    [variant |-> v, strict |-> TRUE, min |-> 1, max |-> 8, timeout_ms |-> 300, delay_ms |-> 30,
+     ipid_base |-> b.ipid_base, echo_base |-> b.echo_base, seq_base32 |-> b.seq_base, isn32 |-> b.isn, sack_perm |-> TRUE, sack_ts |-> FALSE,
+     id |-> "C06/dest/" \o v \o "/" \o b.name \o "/" \o ToString(dt) \o "/" \o ToString(dd), label |-> v \o "/stop_after_dest",
+     path |-> PathOf([t \in 1..8 |-> IF t >= dt THEN <<Dest(v, dd)>> ELSE <<TE(v, t, 2000)>>])]
+C06All(u) == { C06Full(v, b, r[1], r[2]) : v \in Variants, b \in Bases, r \in {<<1, 255>>, <<200, 255>>, <<1, 30>>} }
+          \cup { C06Dest(v, b, dt, dd) : v \in Variants, b \in {BaseMid}, dt \in {1, 2, 5, 8}, dd \in {500, 29000, 31000, 95000} }
+
+---------------------------------------------------------------------------
+Cases == CASE Gen = "C01" -> C01All(0)
+           [] Gen = "C02" -> C02All(NMax)
+           [] Gen = "C04" -> C04All(0)
+           [] Gen = "C05" -> C05All(0)
+           [] Gen = "C06" -> C06All(0)
            [] OTHER -> {}
 
-Picked == IF NMax > 0 /\ Cardinality(Cases) > NMax THEN RandomSubset(NMax, Cases) ELSE Cases
-
-ASSUME /\ ndJsonSerialize(IOEnv.VT_OUT, SetToSeq(Picked))
-       /\ PrintT(<<"GEN", Gen, Cardinality(Cases), Cardinality(Picked)>>)
+Sampled == Gen \in {"C02"}      \* families that sample their parameter space themselves
+ASSUME LET c == Cases
+           pk == IF ~Sampled /\ NMax > 0 /\ Cardinality(c) > NMax THEN RandomSubset(NMax, c) ELSE c
+       IN /\ ndJsonSerialize(IOEnv.VT_OUT, SetToSeq(pk))
+          /\ PrintT(<<"GEN", Gen, Cardinality(c), Cardinality(pk)>>)
 
 VARIABLE x
 Init == x = 0
